@@ -929,3 +929,104 @@ Proof.
   split; [exact E|]. rewrite E.
   repeat constructor; unfold pt_on_line, on_line, secs; cbn [fst snd Z.of_N]; lra.
 Qed.
+
+(** * OBSERVATIONAL INDEPENDENCE from everything before a restart (any arithmetic)
+    Two estimators with ARBITRARY pasts (any two histories from any two creation instants), the
+    same restart (reset*, or a record below both baselines) at the same instant, then the same
+    suffix of calls: the states coincide after the restart - by definition of [est_reset], which
+    overwrites both averages and both instants - and stay equal along the suffix (induction over
+    the suffix), so every later per_sec / eta / duration / elapsed of two bars that agree on the
+    user-visible fields coincides. *)
+Lemma est_evA_restart : forall (A : arith) x (e1 e2 : est (T A)),
+  is_restart x e1 -> is_restart x e2 -> est_evA A x e1 = est_evA A x e2.
+Proof.
+  intros A x e1 e2 H1 H2. destruct x as [p t | t pos]; cbn [est_evA is_restart] in *.
+  - unfold est_record.
+    assert (G1 : forall e : est (T A), (p < prev_steps e)%N ->
+              ((p <=? prev_steps e) || (t <=? prev_time e))%N = true /\ (p <? prev_steps e)%N = true).
+    { intros e H. split; [apply orb_true_iff; left; apply N.leb_le; lia | apply N.ltb_lt; exact H]. }
+    destruct (G1 e1 H1) as [-> ->]. destruct (G1 e2 H2) as [-> ->]. reflexivity.
+  - reflexivity.
+Qed.
+
+Lemma est_runA_suffix : forall (A : arith) sfx (e1 e2 : est (T A)),
+  e1 = e2 -> est_runA A sfx e1 = est_runA A sfx e2.
+Proof.
+  intros A sfx. induction sfx as [|y sfx IH]; intros e1 e2 E; [exact E|].
+  cbn [est_runA]. apply IH. rewrite E. reflexivity.
+Qed.
+
+Theorem forgets_observationally : forall (A : arith) h1 h2 t1 t2 x sfx,
+  let e1 := est_runA A h1 (est_new A t1) in
+  let e2 := est_runA A h2 (est_new A t2) in
+  is_restart x e1 -> is_restart x e2 ->
+  est_runA A (x :: sfx) e1 = est_runA A (x :: sfx) e2 /\
+  (forall q, est_sps A (est_runA A (x :: sfx) e1) q = est_sps A (est_runA A (x :: sfx) e2) q) /\
+  (forall (b1 b2 : bar (T A)) q,
+     b_est b1 = est_runA A (x :: sfx) e1 -> b_est b2 = est_runA A (x :: sfx) e2 ->
+     b_pos b1 = b_pos b2 -> b_len b1 = b_len b2 -> b_done b1 = b_done b2 ->
+     b_started b1 = b_started b2 ->
+     bar_query A b1 q = bar_query A b2 q).
+Proof.
+  intros A h1 h2 t1 t2 x sfx e1 e2 H1 H2.
+  assert (E : est_runA A (x :: sfx) e1 = est_runA A (x :: sfx) e2).
+  { cbn [est_runA]. apply est_runA_suffix. now apply est_evA_restart. }
+  split; [exact E|]. split; [intros q; rewrite E; reflexivity|].
+  intros b1 b2 q B1 B2 Hp Hl Hd Hs.
+  unfold bar_query, bar_per_sec, bar_eta, bar_duration, bar_elapsed, bar_eta.
+  rewrite B1, B2, E, Hp, Hl, Hd, Hs. reflexivity.
+Qed.
+
+(** * More non-vacuity *)
+(** deceleration (100/s for 15 s, then 1/s for 15 s): smoothed = 9.9 < double_smoothed = 18, a
+    strict instance of the decay condition *)
+Definition decel_evs : list ev := [ERec 1500 15000000000; ERec 1515 30000000000].
+Lemma decel_state :
+  hist_ok decel_evs (est_new Rar 0) /\
+  est_run decel_evs (est_new Rar 0) = (mkEst (99 / 10) 18 1515%N 30000000000%N 0%N : est R) /\
+  99 / 10 < 18.
+Proof.
+  assert (E1 : est_record Rar 1500 15000000000 (est_new Rar 0) =
+               (mkEst 90 90 1500%N 15000000000%N 0%N : est R)).
+  { rewrite est_record_accept by (cbn; lia).
+    unfold rec_d, rec_s, seg_rate. cbn [sm dsm prev_steps prev_time start_time est_new].
+    change (15000000000 - 0)%N with 15000000000%N. change (1500 - 0)%N with 1500%N.
+    rewrite secs_15, W_15, fzero_R. cbn [Z.of_N]. f_equal; field. }
+  split; [|split; [|lra]].
+  - unfold decel_evs. cbn [hist_ok ev_time est_ev]. split; [cbn; lia|]. rewrite E1. cbn [prev_time].
+    split; [lia | exact I].
+  - unfold decel_evs. cbn [est_run est_ev]. rewrite E1.
+    rewrite est_record_accept by (cbn; lia).
+    unfold rec_d, rec_s, seg_rate. cbn [sm dsm prev_steps prev_time start_time].
+    change (30000000000 - 15000000000)%N with 15000000000%N.
+    change (30000000000 - 0)%N with 30000000000%N. change (1515 - 1500)%N with 15%N.
+    rewrite secs_15, secs_30, W_15, W_30. cbn [Z.of_N]. f_equal; field.
+Qed.
+
+(** a steady stream at 1 step / us in which the position limiter REFUSES 20 of 31 set_position
+    calls: 30 calls 1 us apart (the burst of 10 passes, the next 20 are refused), one at 1 ms, and a
+    tick 0.5 us later (not listed: it brings the position the estimator already has) *)
+Definition thr_ops : list eop :=
+  flat_map (fun k => [Adv 1000; SetPos (N.of_nat k)]) (seq 1 30)
+  ++ [Adv 970000; SetPos 1000; Adv 500; Tick].
+
+Lemma thr_example : forall len,
+  no_wrap thr_ops 0 /\ on_line 1000000 0 0 0 /\
+  Forall (pt_on_line 1000000 0) (bar_points thr_ops 0 (bar_new Rar len 0)) /\
+  length (bar_points thr_ops 0 (bar_new Rar len 0)) = 31%nat /\
+  length (bar_evs thr_ops 0 (bar_new Rar len 0)) = 12%nat.
+Proof.
+  intros len.
+  assert (Hn : no_wrap thr_ops 0) by (lazy; repeat split).
+  assert (H0 : on_line 1000000 0 0 0) by (unfold on_line, secs; cbn [Z.of_N]; lra).
+  assert (E : bar_points thr_ops 0 (bar_new Rar len 0) =
+              map (fun k => (N.of_nat k, N.of_nat k * 1000)%N) (seq 1 30) ++ [(1000, 1000000)]%N)
+    by (lazy; reflexivity).
+  assert (L : length (bar_evs thr_ops 0 (bar_new Rar len 0)) = 12%nat) by (lazy; reflexivity).
+  split; [exact Hn|]. split; [exact H0|]. split; [|split; [rewrite E; reflexivity | exact L]].
+  rewrite E. apply Forall_app. split.
+  - apply Forall_forall. intros pt Hin. apply in_map_iff in Hin. destruct Hin as (k & <- & _).
+    unfold pt_on_line, on_line, secs. cbn [fst snd].
+    rewrite N2Z.inj_mul, mult_IZR. cbn [Z.of_N]. field.
+  - constructor; [|constructor]. unfold pt_on_line, on_line, secs. cbn [fst snd Z.of_N]. lra.
+Qed.
